@@ -390,6 +390,9 @@ impl<T> Future for ReceiveFuture<'_, T> {
                 _ => {
                     if this.is_stream {
                         this.state = FutureState::Zero;
+                        // the previous signal is finished, the next wait needs a
+                        // new one in the locked state
+                        this.sig = Signal::new_async();
                         continue;
                     }
                     panic!("polled after result is already returned")
